@@ -41,6 +41,7 @@ def run(ctx):
     r44(ctx)
     r45(ctx)
     r46(ctx)
+    r47(ctx)
 
 
 def _sign_sites(ctx, b):
@@ -498,3 +499,27 @@ def r46(ctx):
                f"the commitment script decoder refuses a to_self delay of {K}, the {what} of the built-in policies: a channel "
                f"set up with that delay is signed through the semantic entry while the raw entry rejects its canonical transaction",
                where=f"{b.file}:{b.line}", sample=f"delay == {K} can be decoded")
+
+
+def r47(ctx):
+    ctx.rule("R4.7", "estimate_feerate_per_kw(fee, weight) = (fee * 1000 + 999) / weight: the highest fee rate that gives rise "
+                     "to the fee (used to rebuild the canonical HTLC transaction on the raw entry and for fee-range checks)")
+    p = ctx.prog
+    b = p.fn(LS + "util::transaction_utils::estimate_feerate_per_kw")
+    ctx.touch(b)
+    fv = fnview(ctx, b, policy=False)
+    pf, pw = b.local_name(1), b.local_name(2)
+    found = None
+    for l in range(len(b.local_tys)):
+        e = fv.local_expr(l)
+        for x in subexprs(e):
+            if x[0] == "/" and found is None:
+                num, den = atoms.linear(x[1]), strip_ref(x[2])
+                found = (num, den, x)
+    ok = False
+    if found:
+        num, den, x = found
+        coeff = {str(k[0]): v for k, v in num[0].items()}
+        ok = coeff == {pf: 1000} and num[1] == 999 and den[0] == "param" and den[1] == pw
+    ctx.ob("R4.7", ok, f"{b.name}/formula", f"estimate_feerate_per_kw computes `{render(found[2])[:120] if found else '?'}` (expected "
+           f"({pf} * 1000 + 999) / {pw})", where=f"{b.file}:{b.line}", sample="(fee * 1000 + 999) / weight")
